@@ -6,6 +6,7 @@ import (
 	"os"
 	"os/exec"
 	"strings"
+	"sync"
 	"syscall"
 	"time"
 )
@@ -20,7 +21,8 @@ const WorkerEnv = "VERIF_BLD_WORKER"
 func InWorker() bool { return os.Getenv(WorkerEnv) == "1" }
 
 type Worker struct {
-	Args []string // arguments that put the binary into worker mode
+	Args []string   // arguments that put the binary into worker mode
+	mu   sync.Mutex // one request at a time: a caller that gave up waiting must not overlap with the next request
 	cmd  *exec.Cmd
 	in   io.WriteCloser
 	out  *bufio.Reader
@@ -78,6 +80,8 @@ func (w *Worker) Close() { w.stop() }
 // Do sends one request line and returns the reply line; "exit" if the child terminated instead of
 // answering, "hang" if it did not answer within 4 s (plus 1 s per 16 K characters of the request).
 func (w *Worker) Do(line string) string {
+	w.mu.Lock()
+	defer w.mu.Unlock()
 	if w.cmd == nil {
 		if err := w.start(); err != nil {
 			panic("bld worker: " + err.Error())
